@@ -207,8 +207,15 @@ def depth1_programs(include_bool=True, include_assert=True, include_fxp=False):
     for name in O.BINARY_INT:
         for kinds in (("S", "S"), ("S", "K"), ("K", "S")):
             progs.append({"expr": ("op", name, ("in", 0), ("in", 1)), "kinds": list(kinds)})
+    # public (PubVal) operands: as left operand of every operator, as right operand of the non-commutative ones
+    for name in O.BINARY_INT:
+        progs.append({"expr": ("op", name, ("in", 0), ("in", 1)), "kinds": ["P", "S"]})
+        if name in ("sub", "truediv", "floordiv", "mod", "pow", "lshift", "rshift", "lt", "ge"):
+            progs.append({"expr": ("op", name, ("in", 0), ("in", 1)), "kinds": ["S", "P"]})
     for name in O.UNARY_INT:
         progs.append({"expr": ("op", name, ("in", 0)), "kinds": ["S"]})
+        if name in ("neg", "abs", "invert", "check_zero", "check_positive", "bits_roundtrip"):
+            progs.append({"expr": ("op", name, ("in", 0)), "kinds": ["P"]})
     for kinds in (("B", "S", "S"), ("B", "S", "K"), ("B", "K", "S"), ("B", "B", "B")):
         progs.append({"expr": ("op", "if_then_else", ("in", 0), ("in", 1), ("in", 2)),
                       "kinds": list(kinds)})
